@@ -85,7 +85,9 @@ def cli_targets(R, rng, tier):
         os.makedirs(os.path.join(d, sub))
     srcs = {"_vendor/a.py": "assert a  # nosec\nimport pickle\n", "_vendor/_b.py": "exec(x)\n\n# c\n", "pkg/c.py": "assert c\nassert d  # nosec B101\n",
             "pkg/_private/d.py": "import subprocess\nsubprocess.call(x, shell=True)  # nosec\n", "__pycache__x/e.py": "assert e\n", "_top.py": "assert t  # nosec\nx = 1\n",
-            "__init__.py": "import telnetlib\n", "pkg/zz_py2.py": "print 'python 2'\nx = 1\ny = 2\n"}
+            "__init__.py": "import telnetlib\n", "pkg/zz_py2.py": "print 'python 2'\nx = 1\ny = 2\n",
+            # findings first, then an expression nested deeper than the visitor can follow: the visit aborts half way
+            "pkg/zz_deep.py": "import pickle\nassert zz_q\nzz_v = " + " + ".join(["1"] * 1500) + "\nexec(zz_e)\n"}
     for f, src in srcs.items():
         open(os.path.join(d, f), "w").write(src)
     target_sets = [["-r", "_vendor"], ["-r", "_vendor", "pkg"], ["-r", "./_vendor"], ["-r", "."], ["_top.py", "__init__.py"], ["-r", "pkg", "_top.py"],
@@ -113,6 +115,19 @@ def cli_targets(R, rng, tier):
                 if tot.get("%s.%s" % (crit, rk)) != n:
                     R.violations.append({"what": "_totals[%s.%s]=%s but the report lists %d such findings (targets %s)" % (crit, rk, tot.get("%s.%s" % (crit, rk)), n, ts),
                                          "input": {"targets": ts}, "observed": tot, "signature": None})
+        # per file as well: what a file's block counts is what the report lists for that file
+        for fn, blk in files.items():
+            for crit, key in (("SEVERITY", "issue_severity"), ("CONFIDENCE", "issue_confidence")):
+                for rk in RANKS:
+                    n = sum(1 for x in j["results"] if x["filename"] == fn and x[key] == rk)
+                    if blk.get("%s.%s" % (crit, rk), 0) != n:
+                        R.violations.append({"what": "metrics of %s: %s.%s=%s but the report lists %d such findings in that file (targets %s)" % (
+                            fn, crit, rk, blk.get("%s.%s" % (crit, rk)), n, ts), "input": {"targets": ts}, "observed": blk, "signature": None})
+        for x in j["results"]:
+            if x["filename"] not in files:
+                R.violations.append({"what": "a finding is reported in %s, which has no metrics block (targets %s)" % (x["filename"], ts),
+                                     "input": {"targets": ts}, "observed": sorted(files), "signature": None})
+                break
     shutil.rmtree(d, ignore_errors=True)
 
 
